@@ -224,9 +224,9 @@ func runWTTrial(run *vk.Run, t wtTrial) (datagrams int64) {
 	expectUp := t.Fault == "none" || t.Fault == "slow" || t.Fault == "hole+ws"
 	scfg := &eio.ServerConfig{UpgradeTimeout: time.Second, PingInterval: 2 * time.Second, PingTimeout: 2 * time.Second,
 		WebSocketAcceptOptions: &websocket.AcceptOptions{CompressionMode: websocket.CompressionDisabled}}
-	if t.Fault != "cut" {
-		scfg.PingTimeout = 8 * time.Second
-	}
+	// the heartbeat travels in-band: behind the backlog of a full-speed pattern on a slow machine (race detector)
+	// a PONG can be seconds late, which is a legitimate ping timeout and not a fault of the attempt
+	scfg.PingTimeout = 8 * time.Second
 	if expectUp {
 		scfg.UpgradeTimeout = 10 * time.Second
 	}
@@ -487,7 +487,7 @@ func runWTTrial(run *vk.Run, t wtTrial) (datagrams int64) {
 		return a > 0 && b > 0
 	}
 	if closedNow() {
-		vk.WaitUntil(12*time.Second, bothClosed)
+		vk.WaitUntil(20*time.Second, bothClosed)
 	}
 	fields := map[string]any{"fault": "wt-" + t.Fault, "pattern": t.Pattern, "upgrade_done": swapped}
 	wit := map[string]any{"trial": t.id(), "seed": run.Seed(), "datagrams": relay.count.Load()}
@@ -605,8 +605,8 @@ func runWTTrial(run *vk.Run, t wtTrial) (datagrams int64) {
 			}
 		}
 	} else if !bothClosed() {
-		// swapped onto a flow that is dark: both sides must notice (heartbeat: 2 s + 2 s)
-		if !vk.WaitUntil(15*time.Second, bothClosed) {
+		// swapped onto a flow that is dark: both sides must notice (heartbeat: 2 s + 8 s)
+		if !vk.WaitUntil(30*time.Second, bothClosed) {
 			srvSide.mu.Lock()
 			sc = append([]string(nil), srvSide.closes...)
 			srvSide.mu.Unlock()
@@ -614,7 +614,7 @@ func runWTTrial(run *vk.Run, t wtTrial) (datagrams int64) {
 			cc = append([]string(nil), cliSide.closes...)
 			cliSide.mu.Unlock()
 			run.Violation(vk.Violation{Sub: "half-dead", Fields: fields,
-				What: fmt.Sprintf("WebTransport flow cut after the client swapped: close not reported on both sides within 15 s (server %v client %v) (trial %s)", sc, cc, t.id()), Witness: wit})
+				What: fmt.Sprintf("WebTransport flow cut after the client swapped: close not reported on both sides within 30 s (server %v client %v) (trial %s)", sc, cc, t.id()), Witness: wit})
 		}
 	}
 	class := "alive"
@@ -669,7 +669,7 @@ func wtTrials(run *vk.Run) {
 		}
 	}
 	for i, k := range ks {
-		trials = append(trials, wtTrial{Pattern: []string{"jitter", "burst", "full"}[i%3], Fault: "cut", CutAt: k})
+		trials = append(trials, wtTrial{Pattern: []string{"jitter", "burst"}[i%2], Fault: "cut", CutAt: k})
 	}
 	sem := make(chan struct{}, 8)
 	var wg sync.WaitGroup
